@@ -59,11 +59,13 @@ Definition action_eqb (a b : action) : bool :=
 
 (** A local event as recorded (the iteration order is not observable) and the observation.
     Messages are written once per case in a table and referred to by index. *)
-Inductive xev := XLNet (from : N) (m : N) | XLProc | XLAct | XLTimer (t : timer) | XLPropose.
+Inductive xev := XLNet (from : N) (m : N) | XLProc | XLAct | XLTimer (t : timer) | XLPropose
+  | XLCommitLate (p : N) (e : bool).
 
 Record obs := mkObs {
   o_outs : list N;
-  o_endorsed : option (N * N); o_endorsed_empty : option (N * N); o_committed : option (N * N * bool);
+  o_endorsed : option (N * N); o_endorsed_empty : option (N * N);
+  o_committed : option (N * N); o_committed_empty : option (N * N);
   o_commit_done : bool; o_sealed : option blk;
   o_q : list N; o_acts : list action }.
 
@@ -74,7 +76,8 @@ Definition obs_ok (tbl : list msg) (r : node * list msg) (o : obs) : bool :=
   list_eqb msg_sim (snd r) (map (msg_at tbl) (o_outs o))
   && opt_eqb pk_eqb (n_endorsed nd) (o_endorsed o)
   && opt_eqb pk_eqb (n_endorsed_empty nd) (o_endorsed_empty o)
-  && opt_eqb pke_eqb (n_committed nd) (o_committed o)
+  && opt_eqb pk_eqb (fst (n_committed nd)) (o_committed o)
+  && opt_eqb pk_eqb (snd (n_committed nd)) (o_committed_empty o)
   && eqb (n_commit_done nd) (o_commit_done o)
   && opt_eqb blk_eqb (n_sealed nd) (o_sealed o)
   && list_eqb msg_sim (n_q nd) (map (msg_at tbl) (o_q o))
@@ -96,6 +99,7 @@ Definition candidates (P : params) (self : N) (tbl : list msg) (nd : node) (e : 
   | XLAct => [local_step P self nd LAct]
   | XLTimer t => map (fun ord => local_step P self nd (LTimer t ord)) os
   | XLPropose => [local_step P self nd LPropose]
+  | XLCommitLate p e => [local_step P self nd (LCommitLate p e)]
   end.
 
 Fixpoint replay (P : params) (self : N) (tbl : list msg) (nd : node) (steps : list (xev * obs)) : option node :=
@@ -125,7 +129,8 @@ Definition blocks_sim (a b : list blk) : bool :=
 Inductive case :=
 | CNode (P : params) (self : N) (tbl : list msg) (steps : list (xev * obs)) (signed : list blk) (v d e u : bool)
 | CBlocks (blocks : list blk) (q : bool)
-| CGcc (c n : Z) (msgs : list commit_msg) (p : N) (empty : bool).
+| CGcc (c n : Z) (msgs : list commit_msg) (p : N) (empty : bool)
+| CMarks (ops : list mark_op) (oks : list bool) (en ee cb ce : option (N * N)).
 
 Definition case_ok (k : case) : bool :=
   match k with
@@ -143,6 +148,12 @@ Definition case_ok (k : case) : bool :=
   | CGcc c n msgs p e =>
       (* getCommitConsensus on the accepted commit messages of a node, in order: per-proposer tally *)
       let r := get_commit_consensus msgs c n in (fst r =? p) && eqb (snd r) e
+  | CMarks ops oks en ee cb ce =>
+      (* newBlockProposal / setProposalEndorsed / setProposalCommitted on one candidate of a real BlockPool *)
+      let r := run_marks node0 ops in
+      list_eqb eqb (snd r) oks
+      && opt_eqb pk_eqb (n_endorsed (fst r)) en && opt_eqb pk_eqb (n_endorsed_empty (fst r)) ee
+      && opt_eqb pk_eqb (fst (n_committed (fst r))) cb && opt_eqb pk_eqb (snd (n_committed (fst r))) ce
   end.
 
 Definition mismatches := mism case_ok.
